@@ -33,6 +33,61 @@ var importName = map[string]string{"sync": "sync", "github.com/ash2k/stager/wait
 
 var timeFuncs = map[string]bool{"Now": true, "Since": true, "After": true, "NewTimer": true, "NewTicker": true, "Sleep": true, "AfterFunc": true, "Until": true, "Tick": true}
 
+// Variables and struct fields of a sync/atomic type on which CompareAndSwap is called somewhere: a lock-free
+// protocol (read, decide, swap) is built on them, so every operation on them is made a scheduling point -
+// the other atomics of the repository are plain counters and stay invisible.
+var casVars = map[types.Object]bool{}
+var atomicMethods = map[string]bool{"Load": true, "Store": true, "Add": true, "Swap": true, "CompareAndSwap": true}
+
+func objOf(info *types.Info, e ast.Expr) types.Object {
+	switch x := unparen(e).(type) {
+	case *ast.Ident:
+		return info.Uses[x]
+	case *ast.SelectorExpr:
+		return info.Uses[x.Sel]
+	}
+	return nil
+}
+
+func isAtomicType(t types.Type) bool {
+	if t == nil {
+		return false
+	}
+	if p, ok := types.Unalias(t).(*types.Pointer); ok {
+		t = p.Elem()
+	}
+	n, ok := types.Unalias(t).(*types.Named)
+	return ok && n.Obj().Pkg() != nil && n.Obj().Pkg().Path() == "sync/atomic"
+}
+
+func collectCAS(info *types.Info, f *ast.File) {
+	ast.Inspect(f, func(c ast.Node) bool {
+		call, ok := c.(*ast.CallExpr)
+		if !ok {
+			return true
+		}
+		sel, ok := call.Fun.(*ast.SelectorExpr)
+		if !ok || sel.Sel.Name != "CompareAndSwap" {
+			return true
+		}
+		if tv, ok := info.Types[sel.X]; ok && isAtomicType(tv.Type) {
+			if o := objOf(info, sel.X); o != nil {
+				casVars[o] = true
+			}
+		}
+		return true
+	})
+}
+
+func (r *rw) atomicCall(x *ast.CallExpr) (*ast.SelectorExpr, bool) {
+	sel, ok := x.Fun.(*ast.SelectorExpr)
+	if !ok || !atomicMethods[sel.Sel.Name] || !r.simpleExpr(sel.X) {
+		return nil, false
+	}
+	o := objOf(r.info, sel.X)
+	return sel, o != nil && casVars[o]
+}
+
 type rw struct {
 	fset *token.FileSet
 	src  []byte
@@ -140,6 +195,9 @@ func (r *rw) rewritable(n ast.Node) bool {
 		if r.isCancelFunc(x.Fun) {
 			return true
 		}
+		if _, ok := r.atomicCall(x); ok {
+			return true
+		}
 	case *ast.SelectorExpr:
 		return r.isPkg(x.X, "time") && timeFuncs[x.Sel.Name]
 	case *ast.RangeStmt:
@@ -244,6 +302,20 @@ func (r *rw) rewrite(n ast.Node) string {
 	case *ast.CallExpr:
 		if r.isBuiltin(x.Fun, "close") {
 			return "vsched.Close(" + r.any(x.Args[0]) + ")"
+		}
+		if sel, ok := r.atomicCall(x); ok {
+			recv := string(r.src[r.off(sel.X.Pos()):r.off(sel.X.End())])
+			label := fmt.Sprintf("%q", "atomic "+sel.Sel.Name+" "+recv)
+			w := "true"
+			if sel.Sel.Name == "Load" {
+				w = "false"
+			}
+			call := r.text(x)
+			if sel.Sel.Name == "Store" {
+				return "func() { vsched.AtomicPt(&" + recv + ", true, " + label + "); " + call + " }()"
+			}
+			// operands are evaluated left to right: the scheduling point first, then the operation itself
+			return "vsched.AtomicOp(vsched.AtomicPt(&" + recv + ", " + w + ", " + label + "), " + call + ")"
 		}
 		return "vsched.Cancel(" + r.any(x.Fun) + ")"
 	case *ast.SelectorExpr:
@@ -506,6 +578,13 @@ func main() {
 	pkgs, err := packages.Load(cfg, pats...)
 	if err != nil {
 		die("load: %v", err)
+	}
+	for _, p := range pkgs {
+		for i, f := range p.Syntax {
+			if strings.HasPrefix(p.CompiledGoFiles[i], *repo+"/") {
+				collectCAS(p.TypesInfo, f)
+			}
+		}
 	}
 	overlay := map[string]string{}
 	nfiles, nsites := 0, 0
